@@ -276,17 +276,11 @@ Proof.
     destruct (premote p); [discriminate|]. destruct (ipfs_has s c (pdirect p)); discriminate.
 Qed.
 
-Lemma reached_inv q n ps i evs : Inv (run (init q n ps i) evs).
-Proof. apply run_inv, init_inv. Qed.
-
-Lemma reached_linv q n ps i evs : wf_pinset ps -> LInv false (run (init q n ps i) evs).
-Proof. intros W. apply run_linv; [apply init_inv|now apply init_linv|discriminate]. Qed.
-
 Lemma views_agree_reached q n ps i evs c : wf_pinset ps ->
   class_of (status_of (run (init q n ps i) evs) c) =
   match listed (run (init q n ps i) evs) c with Some x => class_of x | None => CUnpinned end.
 Proof.
-  intros W. apply views_agree_l; [apply (inv_nodup _ (reached_inv q n ps i evs))|apply (li_pnodup _ _ (reached_linv q n ps i evs W))].
+  intros W. apply views_agree_l; [apply (inv_nodup _ (reached_inv q n ps i evs))|apply (li_pnodup _ _ (reached_linv_all q n ps i evs W))].
 Qed.
 
 Lemma truthful_reached q n ps i evs c : wf_pinset ps -> stable_run (init q n ps i) evs ->
@@ -297,7 +291,7 @@ Lemma truthful_reached q n ps i evs c : wf_pinset ps -> stable_run (init q n ps 
 Proof.
   intros W St Q.
   assert (T : class_of (status_of (run (init q n ps i) evs) c) = expected_class (run (init q n ps i) evs) c).
-  { apply truthful_l; auto using reached_inv, reached_linv.
+  { apply truthful_l; auto using reached_inv, reached_linv_all.
     apply run_minv; auto using init_inv, init_minv. now apply init_linv. }
   split; auto. now rewrite <- views_agree_reached.
 Qed.
